@@ -24,6 +24,12 @@ for pid in props:
 claimed = {c["property_id"] for c in checks}
 na = [{"property_id": p, "reason": tbl.get("not_applicable", {}).get(p, "check not built yet in this session (see DESIGN.md §4b for the construction order); nothing is claimed")}
       for p in props if p not in claimed]
+import subprocess
+try:
+    hc = subprocess.check_output(["git", "-C", "/repo", "log", "--format=%h", "--grep=^verif hook"], text=True).split()
+    tbl["hooks"]["source_commits"] = list(reversed(hc))
+except Exception:
+    pass
 m = {
     "version": 1,
     "setup_cmd": "./setup.sh",
